@@ -66,6 +66,25 @@ func c22Exec(t *verifh.T, c verifh.Case) {
 	rh := c22New(cfg)
 	t.Cfg(cfg...)
 	do := func(op []string) {
+		if len(op) == 3 && op[0] == "one" && op[1] == "unitfloat" {
+			// UInt64ToFloat64 on a hash whose low 53 bits are zero (the rehash-on-zero branch)
+			b, err := verifh.Unhex(op[2])
+			if err != nil || len(b) != 8 {
+				return
+			}
+			f := hrw.UInt64ToFloat64(b, []byte{255, 255, 255, 255, 255, 255, 255, 255}, hrw.Murmur3Hash())
+			cls := "in01"
+			switch {
+			case math.IsNaN(f):
+				cls = "nan"
+			case f <= 0:
+				cls = "zero-or-negative"
+			case f >= 1:
+				cls = "one-or-more"
+			}
+			t.One(op[1:], cls)
+			return
+		}
 		if len(op) < 2 || op[0] != "op" {
 			return // tbl rows are regenerated, never replayed
 		}
@@ -202,6 +221,13 @@ func TestVerif_C22(t *testing.T) {
 		return
 	}
 	r := verifh.NewRand(verifh.Seed(), "c22")
+
+	// (0) the rehash-on-zero branch of UInt64ToFloat64: hashes whose low 53 bits are all zero
+	for i := 0; i < 2048; i += verifh.Scale(16, 1) {
+		b := []byte{byte(i >> 3), byte(i<<5) & 0xe0, 0, 0, 0, 0, 0, 0}
+		c22Exec(tr, verifh.Case{Ops: [][]string{{"one", "unitfloat", verifh.Hex(b)}}})
+		tr.Count("unitfloat_cases", 1)
+	}
 
 	// (a) the exhaustive shard space: all 65536 four-hex-digit keys
 	type sweep struct {
